@@ -69,8 +69,10 @@ pub struct Inner {
 }
 impl Inner {
     fn any(key: U256) -> Self {
+        let has = any_res(kani::any());
+        let slot = any_res(any_u256());
         let info = if kani::any() { Some((any_u256(), kani::any(), kani::any())) } else { None };
-        Inner { has: any_res(kani::any()), slot: any_res(any_u256()), key, basic: any_res(info) }
+        Inner { has, slot, key, basic: any_res(info) }
     }
 }
 impl DatabaseRef for Inner {
@@ -100,8 +102,18 @@ impl DatabaseRef for Inner {
 /// `Option` whose niche lives in the symbolic `AccountState`) makes CBMC walk the insert / rehash code of slots that are not there.
 struct Cached<const CACHED: bool, const AT_A: bool, const N: usize> { balance: U256, nonce: u64, code_hash: [u8; 32], state: AccountState, v: [U256; 2] }
 impl<const CACHED: bool, const AT_A: bool, const N: usize> Cached<CACHED, AT_A, N> {
+    /// (generation order = order of the values in a concrete-playback witness: state and slot values first, then -- `Inner::any` --
+    /// the inner database's answers, the account info last)
     fn any() -> Self {
-        Cached { balance: any_u256(), nonce: kani::any(), code_hash: kani::any(), state: any_state(), v: [any_u256(), any_u256()] }
+        let state = any_state();
+        let v = [any_u256(), any_u256()];
+        Cached { balance: U256::ZERO, nonce: 0, code_hash: [0; 32], state, v }
+    }
+    fn with_any_info(mut self) -> Self {
+        self.balance = any_u256();
+        self.nonce = kani::any();
+        self.code_hash = kani::any();
+        self
     }
     /// the queried address is in the cache
     const HIT: bool = CACHED && AT_A;
@@ -131,6 +143,7 @@ fn check_has<const CACHED: bool, const AT_A: bool, const N: usize>() {
     let c = Cached::<CACHED, AT_A, N>::any();
     let hit = Cached::<CACHED, AT_A, N>::HIT;
     let inner = Inner::any(K1);
+    let c = c.with_any_info();
     let inner_ans = inner.has;
     let mut db = c.build(inner);
     let holds_nonzero = hit && ((N >= 1 && nonzero(c.v[0])) || (N >= 2 && nonzero(c.v[1])));
@@ -184,6 +197,7 @@ fn check_storage_ref<const CACHED: bool, const AT_A: bool, const N: usize, const
     let hit = Cached::<CACHED, AT_A, N>::HIT;
     let key = if K == 0 { K1 } else { K2 };
     let inner = Inner::any(key);
+    let c = c.with_any_info();
     let inner_ans = inner.slot;
     let db = c.build(inner);
     let want = if hit && K < N {
@@ -220,6 +234,7 @@ fn check_basic_ref<const CACHED: bool, const AT_A: bool, const N: usize>() {
     let c = Cached::<CACHED, AT_A, N>::any();
     let hit = Cached::<CACHED, AT_A, N>::HIT;
     let inner = Inner::any(K1);
+    let c = c.with_any_info();
     let inner_ans = inner.basic;
     let db = c.build(inner);
     // (balance, nonce, code hash) of the expected answer
